@@ -37,9 +37,28 @@ pub fn install_panic_hook() {
     }));
 }
 
+thread_local! {
+    /// true while a property (C19) manages the step budget itself
+    pub static BUDGET_ARMED: std::cell::Cell<bool> = std::cell::Cell::new(false);
+}
+
+/// Default step budget per guarded library call: far above any legitimate
+/// amount of work for the generated sizes (haystacks <= ~4 KiB, quadratic
+/// iteration included), so that a search loop that never terminates becomes
+/// a deterministic panic (a violation) instead of a watchdog time-out.
+pub const DEFAULT_STEP_BUDGET: u64 = 200_000_000;
+
 /// Run a library call, turning a panic into Err(message).
 pub fn guard<T>(f: impl FnOnce() -> T) -> Result<T, String> {
-    match catch_unwind(AssertUnwindSafe(f)) {
+    let own_budget = !BUDGET_ARMED.with(|b| b.get());
+    if own_budget {
+        aho_corasick::verif::set_step_budget(Some(DEFAULT_STEP_BUDGET));
+    }
+    let r = catch_unwind(AssertUnwindSafe(f));
+    if own_budget {
+        aho_corasick::verif::set_step_budget(None);
+    }
+    match r {
         Ok(v) => Ok(v),
         Err(_) => Err(LAST_PANIC.with(|p| p.borrow().clone())),
     }
@@ -186,10 +205,15 @@ impl Searcher {
         r.map(|o| o.map(to_m))
     }
 
+    /// Collects the non-overlapping iterator. A correct iterator yields at
+    /// most span+1 matches; collection stops two items after that bound so
+    /// that an iterator that never ends shows up as a sequence mismatch
+    /// instead of exhausting memory.
     pub fn try_find_iter(&self, inp: Input<'_>) -> Result<Vec<M>, MatchError> {
+        let cap = inp.haystack().len() + 3;
         Ok(match self {
-            Searcher::Top(a) => a.try_find_iter(inp)?.map(to_m).collect(),
-            _ => low!(self, a => a.try_find_iter(inp)?.map(to_m).collect()),
+            Searcher::Top(a) => a.try_find_iter(inp)?.take(cap).map(to_m).collect(),
+            _ => low!(self, a => a.try_find_iter(inp)?.take(cap).map(to_m).collect()),
         })
     }
 
@@ -197,12 +221,14 @@ impl Searcher {
         &self,
         inp: Input<'_>,
     ) -> Result<Vec<M>, MatchError> {
+        let cap = (inp.haystack().len() + 1) * (self.patterns_len() + 1) + 3;
         Ok(match self {
             Searcher::Top(a) => {
-                a.try_find_overlapping_iter(inp)?.map(to_m).collect()
+                a.try_find_overlapping_iter(inp)?.take(cap).map(to_m).collect()
             }
             _ => low!(self, a => a
                 .try_find_overlapping_iter(inp)?
+                .take(cap)
                 .map(to_m)
                 .collect()),
         })
@@ -269,10 +295,12 @@ impl Searcher {
         Ok(match self {
             Searcher::Top(a) => a
                 .try_stream_find_iter(rdr)?
+                .take(1 << 20)
                 .map(|r| r.map(to_m))
                 .collect(),
             _ => low!(self, a => a
                 .try_stream_find_iter(rdr)?
+                .take(1 << 20)
                 .map(|r| r.map(to_m))
                 .collect()),
         })
